@@ -1,6 +1,7 @@
 package harness
 
 import (
+	"fmt"
 	"testing"
 	"time"
 
@@ -28,13 +29,25 @@ func c08Leave(r *rng, id string) {
 		if src != lv.tr.addr {
 			return
 		}
+		// only packets addressed to a member that is really there count as "a peer was sent the departure"
+		live := false
+		for _, o := range cl.nodes {
+			if o != lv && o.tr.addr == dst && !o.left && !o.crashed {
+				live = true
+			}
+		}
+		if !live {
+			return
+		}
 		for _, p := range simParts(buf) {
-			if len(p) > 1 && p[0] == 5 && ml.VerifDecodes(5, p[1:]) {
-				sentDeparture++
+			if len(p) > 1 && p[0] == 5 {
+				if c, ok := ml.VerifDecodeClaim(5, p[1:]); ok && c.Node == lv.name && c.From == lv.name {
+					sentDeparture++
+				}
 			}
 		}
 	}
-	scenario := []string{"plain", "plain", "timeout-then-again", "suspected-peers"}[r.intn(4)]
+	scenario := []string{"plain", "plain", "timeout-then-again", "suspected-peers", "plain-zero", "many-departed"}[r.intn(6)]
 	res1, res2 := "-", "-"
 	sentAtReturn := -1
 	errS := func(err error) string {
@@ -54,6 +67,20 @@ func c08Leave(r *rng, id string) {
 	}
 	switch scenario {
 	case "plain":
+		res1 = errS(lv.m.Leave(3 * time.Second))
+		sentAtReturn = sentDeparture
+	case "plain-zero":
+		// timeout 0: wait for the broadcast however long it takes
+		res1 = errS(lv.m.Leave(0))
+		sentAtReturn = sentDeparture
+	case "many-departed":
+		// a scale-down: the leaver still holds the records of many members that left a moment ago (they are
+		// gone: nothing answers at their addresses); the departure is for those who are still there
+		for g := 0; g < 40; g++ {
+			name := fmt.Sprintf("gone%d", g)
+			ml.VerifAliveNode(lv.m, 1, name, []byte{10, 9, byte(g / 250), byte(g%250 + 1)}, 7946, nil, []uint8{1, 5, 2, 0, 0, 0}, nil, false)
+			ml.VerifDeadNode(lv.m, 1, name, name)
+		}
 		res1 = errS(lv.m.Leave(3 * time.Second))
 		sentAtReturn = sentDeparture
 	case "suspected-peers":
